@@ -89,6 +89,9 @@ int main(void)
     S2P[0] = (ABT_pool)pool_of(a2); S2P[1] = (ABT_pool)pool_of(b2); S2.num_pools = n2;
     S0.get_migr_pool = S1.get_migr_pool = S2.get_migr_pool = NULL;
     VR_ASSUME(migratable && !mainsched);
+    /* the request may be issued by the unit itself (running on X0), by a ULT of another stream, or by an external thread */
+    { int who = nondet_int(); VR_ASSUME(who >= 0 && who <= 3); lp_ABTI_local = who == 0 ? (ABTI_local *)&X0 : who == 1 ? (ABTI_local *)&X1 : who == 2 ? (ABTI_local *)&X2 : NULL;
+      X0.p_thread = &T.thread; static ABTI_ythread C1, C2; C1.thread.type = C2.thread.type = ABTI_THREAD_TYPE_THREAD | ABTI_THREAD_TYPE_YIELDABLE; X1.p_thread = &C1.thread; X2.p_thread = &C2.thread; }
     int r = ABT_thread_migrate((ABT_thread)&T);
     /* a stream is a usable destination if it is another RUNNING stream that does not already serve the unit's pool
      * (its scheduler then offers a different pool).  Streams that share the unit's current pool are no move at all. */
